@@ -15,6 +15,9 @@ ALPHA = [E.DRAIN, E.TURN, E.TIMER, E.START, E.FINISH, E.DISCONNECT, E.FORCE, E.C
 NA = len(ALPHA)
 SH0 = shard_int("SH0", 0)
 STAGE = shard_int("STAGE", 0)
+NOISE = shard_int("NOISE", 0)  # 1: encrypted transport (the scenario starts with finish_connection parked on the noise handshake)
+NEEDS_NOISE_PATCHES = True
+PSK = "QRTIErOb/fcE9Ukd/5qA3RGYMn0Y+p06U58SCtOXvPc="
 
 
 def _mon_flag(viol: list):
@@ -28,7 +31,7 @@ def _mon_flag(viol: list):
 def _run(events: list) -> bool:
     track.entered()
     viol: list = []
-    s = Scenario(STAGE)
+    s = Scenario(STAGE, world_kw={"noise_psk": PSK} if NOISE else None)
     try:
         s.monitors.append(_mon_flag(viol))
         s.observe()
@@ -81,11 +84,11 @@ def h05_4(a0: int, a1: int, a2: int, a3: int) -> bool:
     return _run([a0, a1, a2, a3])
 
 
-def _enabled_first(stage: int) -> list:
+def _enabled_first(stage: int, noise: int = 0) -> list:
     """first events that can be enabled at a stage (computed natively; pruning only saves time)."""
     out = []
     for i, ev in enumerate(ALPHA):
-        s = Scenario(stage)
+        s = Scenario(stage, world_kw={"noise_psk": PSK} if noise else None)
         try:
             if s.apply(ev):
                 out.append(i)
@@ -98,11 +101,11 @@ def shards(tier: str) -> list:
     out = []
     stages = [E.ST_FRESH, E.ST_CONNECTING, E.ST_OPENED, E.ST_HELLO_SENT, E.ST_CONNECTED, E.ST_DISCONNECTING, E.ST_RESOLVING]
     fn = "h05_3" if tier == "quick" else "h05_4"
-    for st in stages:
-        for i in _enabled_first(st):
-            out.append({"fn": fn, "env": {"STAGE": st, "SH0": i}, "cond_timeout": 600 if tier == "quick" else 2400,
+    for st, nz in [(x, 0) for x in stages] + [(E.ST_HELLO_SENT, 1)]:
+        for i in _enabled_first(st, nz):
+            out.append({"fn": fn, "env": {"STAGE": st, "SH0": i, "NOISE": nz}, "cond_timeout": 600 if tier == "quick" else 2400,
                         "path_timeout": 60,
-                        "desc": f"stage {E.STAGE_NAMES[st]}, first event {E.NAMES[ALPHA[i]]}, then {2 if tier == 'quick' else 3} symbolic events"})
+                        "desc": f"stage {E.STAGE_NAMES[st]}{' (noise: handshake pending)' if nz else ''}, first event {E.NAMES[ALPHA[i]]}, then {2 if tier == 'quick' else 3} symbolic events"})
     return out
 
 
